@@ -646,6 +646,34 @@ def c04_families(tier, seed, ids=None):
     rf.append(mk(ids, [refused(["ga", "gb"]), assign("gb", I(1)), assign("ga", I(2)), lst([N("ga"), N("gb")]), refused(["gc", "ga"]), assign("gd", I(4)), assign("gc", I(3)), lst([N("ga"), N("gb"), N("gc"), N("gd")]),
                        fr(["ge"], [call("fromto", I(0), I(2))], N("ge")), N("ge")], {"refused-first-mention": "several refusals"}))
     out.append(("names first mentioned by a statement the compiler refused", rf, ("value",)))
+    # a call in tail position (the last thing a function does): the caller's variables stay the caller's while the callee runs, also when a
+    # closure over them reaches the callee indirectly -- wrapped in another closure, inside an array, through a global, two calls down
+    tc = []
+    wrap = assign("wrap", fn(["h"], fn([], call("h"))))
+    app = assign("app", fn(["pad", "g"], bin_("+", call("g"), N("pad"))))
+    appa = assign("appa", fn(["pad", "gs"], bin_("+", call(ix1(N("gs"), I(0))) if False else call("first", N("gs")), N("pad"))))
+    first = assign("first", fn(["gs"], block([assign("g", ix1(N("gs"), I(0))), call("g")])))
+    down2 = assign("downtwo", fn(["pad", "g"], call("app", bin_("*", N("pad"), I(2)), N("g"))))
+    viag = assign("viag", fn(["pad"], bin_("+", call("held"), N("pad"))))
+    shapes = {
+        "wrapped, tail": fn(["n"], block([assign("h", fn([], N("n"))), assign("w", call("wrap", N("h"))), call("app", I(100), N("w"))])),
+        "wrapped, not tail": fn(["n"], block([assign("h", fn([], N("n"))), assign("w", call("wrap", N("h"))), assign("r", call("app", I(100), N("w"))), N("r")])),
+        "direct, tail": fn(["n"], block([assign("h", fn([], N("n"))), call("app", I(100), N("h"))])),
+        "in an array, tail": fn(["n"], block([assign("h", fn([], N("n"))), call("appa", I(100), lst([N("h")]))])),
+        "wrapped twice, tail": fn(["n"], block([assign("h", fn([], N("n"))), call("app", I(100), call("wrap", call("wrap", N("h"))))])),
+        "two calls down, tail": fn(["n"], block([assign("h", fn([], N("n"))), assign("w", call("wrap", N("h"))), call("downtwo", I(100), N("w"))])),
+        "local updated before the tail call": fn(["n"], block([assign("m", bin_("*", N("n"), I(2))), assign("h", fn([], bin_("+", N("m"), N("n")))), assign("w", call("wrap", N("h"))), assign("m", bin_("+", N("m"), I(1))), call("app", I(100), N("w"))])),
+        "tail call in both branches": fn(["n"], block([assign("h", fn([], N("n"))), assign("w", call("wrap", N("h"))), ife(bin_(">", N("n"), I(3)), call("app", I(100), N("w")), call("app", I(200), N("w")))])),
+        "tail call of a parameter": fn(["n"], block([assign("h", fn([], N("n"))), assign("w", call("wrap", N("h"))), call("runit", N("w"))])),
+    }
+    for sname, f in shapes.items():
+        tc.append(mk(ids, [wrap, app, first, appa, down2, assign("runit", fn(["g"], call("g"))), assign("tf", f), call("tf", I(5)), call("tf", I(2)), lst([call("tf", I(7)), call("tf", I(1))]),
+                           fr(["q"], [call("fromto", I(4), I(6))], wr(call("tf", N("q")))), call("tf", I(5))], {"tail": sname}))
+    # tail recursion and mutual tail calls keep their arguments apart
+    tc.append(mk(ids, [assign("sumto", fn(["n", "acc"], ife(bin_("==", N("n"), I(0)), N("acc"), call("sumto", bin_("-", N("n"), I(1)), bin_("+", N("acc"), N("n")))))), call("sumto", I(10), I(0)), call("sumto", I(300), I(0)),
+                       assign("ev", fn(["n"], ife(bin_("==", N("n"), I(0)), Bo(True), call("od", bin_("-", N("n"), I(1)))))), assign("od", fn(["n"], ife(bin_("==", N("n"), I(0)), Bo(False), call("ev", bin_("-", N("n"), I(1)))))),
+                       call("ev", I(10)), call("od", I(7)), call("ev", I(7))], {"tail": "recursion"}))
+    out.append(("calls in tail position with closures over the caller's variables reaching the callee indirectly", tc, ("value",)))
     # a call made in a loop body must not change what the iterator closure sees in its captured variable
     upto = assign("upto", fn(["n"], fn([], block([assign("i", I(0)), wh(bin_("<", N("i"), N("n")), block([y(N("i")), assign("i", bin_("+", N("i"), I(1)))]))]))))
     adder = assign("adder", fn(["k"], fn(["x"], bin_("+", N("x"), N("k")))))
